@@ -29,7 +29,7 @@ MAGS = [
     dict(ys=47.5, zs=52.3, tx=0.011, ty=-0.017, tz=0.023, wedge=1.7, chi=-0.9, t=(123.4, -87.6, 55.5), dist=151234.5, wl=0.2846),
     dict(ys=50.0, zs=50.0, tx=-0.003, ty=0.008, tz=-0.041, wedge=-5.0, chi=3.3, t=(-400.0, 250.0, -310.0), dist=98765.4, wl=0.1542),
     dict(ys=75.0, zs=74.0, tx=0.05, ty=0.05, tz=0.05, wedge=12.0, chi=-7.5, t=(10.0, 10.0, 10.0), dist=250000.0, wl=0.7093),
-    dict(ys=1.4, zs=1.4, tx=-0.0007, ty=-0.0011, tz=0.0003, wedge=0.05, chi=0.02, t=(499.0, -499.0, 499.0), dist=4000.0, wl=0.3099),
+    dict(ys=1.4, zs=1.4, tx=-0.0007, ty=-0.0011, tz=0.0003, wedge=-0.05, chi=-0.02, t=(499.0, -499.0, 499.0), dist=4000.0, wl=0.3099),
 ]
 
 
@@ -65,6 +65,11 @@ def plan(tier, seed):
     for mg in mags:
         for c in range(64):
             shards.append(("cfg", tier, mg, c, 64))
+    if tier == "quick":
+        # a quarter of a second magnitude set whose wedge has the other sign (sets 1 and 3 have wedge < 0)
+        other = 1 if mags[0] in (0, 2) else 0
+        for k_ in range(16):
+            shards.append(("cfg", tier, other, (5 * k_ + 1) % 64, 64))
     for c in range(4):
         shards.append(("sched", tier, mags[0], c, 4))
     for c in range(8):
